@@ -42,10 +42,15 @@
        workerStopper.Stop() and unloadNodes() in workerPoolMain is a GENERATED
        fact; only when the workers are stopped first do the busy references
        outlive the running jobs;
+     - snapshot requests are dispatched by the apply worker ([ADispatch]) and wait
+       ([pend]) until the pool schedules them on a free worker ([ASchedule]); the pool
+       drops a waiting job whose shard left its node map ([ADiscard]); whether
+       scheduleWorker makes that test is a GENERATED fact;
      - snapshot pool admission (workerPool.canSchedule): save/recover need no
        job in progress for the shard, stream needs no save/recover; a second
-       stream is refused by node.ss.streaming (set on dispatch, cleared by the
-       apply worker after the stream job reported completion).
+       stream task is refused by node.canStream while node.ss.streaming() (set on
+       dispatch, cleared by the apply worker after the stream job reported
+       completion); whether canStream makes that test is a GENERATED fact.
    Over-approximations (more behaviours than the code, so the positive
    theorems remain valid): the task queue content is arbitrary (any Handle site
    may run next; the order/index discipline is Model/ApplyOrder.v), snapshot
@@ -131,7 +136,9 @@ Record cfg := mkCfg {
   c_load_atomic_pool : bool;     (* workerPool.loadNodes increments under NodeHost.mu *)
   c_apply_checks_stopped : bool; (* processApplies tests node.stopped() first *)
   c_pool_rechecks : bool;        (* workerPoolMain reloads the node map directly before scheduling *)
-  c_pool_stop_before_unload : bool (* pool shutdown: workerStopper.Stop() (waits for running jobs) before unloadNodes() *)
+  c_pool_stop_before_unload : bool; (* pool shutdown: workerStopper.Stop() (waits for running jobs) before unloadNodes() *)
+  c_sched_checks_loaded : bool;    (* scheduleWorker drops a pending job whose shard is not in the pool's node map *)
+  c_stream_checks_flag : bool      (* node.canStream refuses a stream task while node.ss.streaming() *)
 }.
 
 Definition root_sites (c : cfg) (root : string) : list site :=
@@ -156,6 +163,12 @@ Definition apply_sites (c : cfg) : list site := root_sites c "Handle"%string.
 Definition reader_sites (c : cfg) : list site := root_sites c "Lookup"%string ++ root_sites c "NALookup"%string.
 Definition close_sites (c : cfg) : list site := root_sites c "Close"%string.
 
+Definition jk_eqb (a b : jobkind) : bool :=
+  match a, b with
+  | JSave, JSave | JStream, JStream | JRecover, JRecover | JRecoverInit, JRecoverInit => true
+  | _, _ => false
+  end.
+
 Inductive phase := P0 | P1 | P2 | P3 | P4 | P5 | P6.
 
 Record thread := mkThr {
@@ -177,11 +190,13 @@ Record state := mkState {
   ap_ref : ref; ap_chk : bool;
   pool_ref : ref; pool_chk : bool;
   close_ready : bool;
-  ss_streaming : bool; stream_done : bool
+  ss_streaming : bool; stream_done : bool;
+  pend : jobkind -> bool  (* snapshot requests dispatched by the apply worker and not yet scheduled:
+                             node.ss.*Ready slots and workerPool.pending *)
 }.
 
 Definition init (nthreads : nat) : state :=
-  mkState (repeat idle_thread nthreads) false false 0 false 1 NotLoaded false NotLoaded false false false false.
+  mkState (repeat idle_thread nthreads) false false 0 false 1 NotLoaded false NotLoaded false false false false (fun _ => false).
 
 Definition holds_s (p : phase) : bool := match p with P0 => false | _ => true end.
 Definition holds_d (p : phase) : bool := match p with P0 | P1 => false | _ => true end.
@@ -236,15 +251,15 @@ Definition role_of (c : cfg) (i : nat) : role :=
 
 Definition set_thr (st : state) (l : list thread) : state :=
   mkState l (destroyed st) (closed st) (nclose st) (stopped st) (cnt st) (ap_ref st) (ap_chk st)
-          (pool_ref st) (pool_chk st) (close_ready st) (ss_streaming st) (stream_done st).
+          (pool_ref st) (pool_chk st) (close_ready st) (ss_streaming st) (stream_done st) (pend st).
 
 (* decrement of the offload counter; reaching 0 hands the node to the close pool *)
 Definition offload (st : state) : state :=
   mkState (thr st) (destroyed st) (closed st) (nclose st) (stopped st) (pred (cnt st)) (ap_ref st) (ap_chk st)
-          (pool_ref st) (pool_chk st) (close_ready st || (pred (cnt st) =? 0)) (ss_streaming st) (stream_done st).
+          (pool_ref st) (pool_chk st) (close_ready st || (pred (cnt st) =? 0)) (ss_streaming st) (stream_done st) (pend st).
 Definition load (st : state) : state :=
   mkState (thr st) (destroyed st) (closed st) (nclose st) (stopped st) (S (cnt st)) (ap_ref st) (ap_chk st)
-          (pool_ref st) (pool_chk st) (close_ready st) (ss_streaming st) (stream_done st).
+          (pool_ref st) (pool_chk st) (close_ready st) (ss_streaming st) (stream_done st) (pend st).
 
 Definition job_conflict (new old : jobkind) : bool :=
   match new, old with
@@ -263,6 +278,7 @@ Inductive action :=
 | AStop
 | AApLoad | AApIncr | AApCheck | AApStart (n : nat) | AApOffload | AApClearStream
 | APoolLoad | APoolIncr | APoolCheck | APoolOffload | APoolShutdown
+| ADispatch (j : jobkind) | ADiscard (j : jobkind)
 | ASchedule (w : nat) (j : jobkind) | ACompleted (w : nat)
 | AReaderStart (r : nat) (n : nat)
 | ACloseStart
@@ -285,9 +301,9 @@ Definition thr_step (c : cfg) (st : state) (i : nat) : option state :=
       let st1 := setph P4 in
       match s_meth s with
       | MClose => Some (mkState (thr st1) (destroyed st1) true (S (nclose st1)) (stopped st1) (cnt st1) (ap_ref st1)
-                                (ap_chk st1) (pool_ref st1) (pool_chk st1) (close_ready st1) (ss_streaming st1) (stream_done st1))
+                                (ap_chk st1) (pool_ref st1) (pool_chk st1) (close_ready st1) (ss_streaming st1) (stream_done st1) (pend st1))
       | MSetDestroyed => Some (mkState (thr st1) true (closed st1) (nclose st1) (stopped st1) (cnt st1) (ap_ref st1)
-                                (ap_chk st1) (pool_ref st1) (pool_chk st1) (close_ready st1) (ss_streaming st1) (stream_done st1))
+                                (ap_chk st1) (pool_ref st1) (pool_chk st1) (close_ready st1) (ss_streaming st1) (stream_done st1) (pend st1))
       | _ => Some st1
       end
     | P4 => Some (setph P5)
@@ -295,14 +311,14 @@ Definition thr_step (c : cfg) (st : state) (i : nat) : option state :=
       let st1 := setph P6 in
       if s_post s
       then Some (mkState (thr st1) true (closed st1) (nclose st1) (stopped st1) (cnt st1) (ap_ref st1)
-                         (ap_chk st1) (pool_ref st1) (pool_chk st1) (close_ready st1) (ss_streaming st1) (stream_done st1))
+                         (ap_chk st1) (pool_ref st1) (pool_chk st1) (close_ready st1) (ss_streaming st1) (stream_done st1) (pend st1))
       else Some st1
     | P6 =>
       let st1 := set_thr st (upd i (mkThr rest P0 (t_busy t)) (thr st)) in
       match rest, t_busy t with
       | [], Some JStream =>   (* node.streamDone: streamCompleted set *)
         Some (mkState (thr st1) (destroyed st1) (closed st1) (nclose st1) (stopped st1) (cnt st1) (ap_ref st1)
-                      (ap_chk st1) (pool_ref st1) (pool_chk st1) (close_ready st1) (ss_streaming st1) true)
+                      (ap_chk st1) (pool_ref st1) (pool_chk st1) (close_ready st1) (ss_streaming st1) true (pend st1))
       | _, _ => Some st1
       end
     end
@@ -310,10 +326,10 @@ Definition thr_step (c : cfg) (st : state) (i : nat) : option state :=
 
 Definition set_ap (st : state) (r : ref) (chk : bool) : state :=
   mkState (thr st) (destroyed st) (closed st) (nclose st) (stopped st) (cnt st) r chk
-          (pool_ref st) (pool_chk st) (close_ready st) (ss_streaming st) (stream_done st).
+          (pool_ref st) (pool_chk st) (close_ready st) (ss_streaming st) (stream_done st) (pend st).
 Definition set_pool (st : state) (r : ref) : state :=
   mkState (thr st) (destroyed st) (closed st) (nclose st) (stopped st) (cnt st) (ap_ref st) (ap_chk st)
-          r false (close_ready st) (ss_streaming st) (stream_done st).
+          r false (close_ready st) (ss_streaming st) (stream_done st) (pend st).
 
 Definition ref_eqb (a b : ref) : bool :=
   match a, b with
@@ -326,7 +342,7 @@ Definition step (c : cfg) (st : state) (a : action) : option state :=
   | AStop =>
     if stopped st then None
     else Some (offload (mkState (thr st) (destroyed st) (closed st) (nclose st) true (cnt st) (ap_ref st) (ap_chk st)
-                                (pool_ref st) (pool_chk st) (close_ready st) (ss_streaming st) (stream_done st)))
+                                (pool_ref st) (pool_chk st) (close_ready st) (ss_streaming st) (stream_done st) (pend st)))
   | AApLoad =>
     if negb (stopped st) && ref_eqb (ap_ref st) NotLoaded
     then Some (if c_load_atomic_engine c then load (set_ap st Loaded false) else set_ap st Seen false)
@@ -351,7 +367,7 @@ Definition step (c : cfg) (st : state) (a : action) : option state :=
   | AApClearStream =>
     if ss_streaming st && stream_done st
     then Some (mkState (thr st) (destroyed st) (closed st) (nclose st) (stopped st) (cnt st) (ap_ref st) (ap_chk st)
-                       (pool_ref st) (pool_chk st) (close_ready st) false false)
+                       (pool_ref st) (pool_chk st) (close_ready st) false false (pend st))
     else None
   | APoolLoad =>
     if negb (stopped st) && ref_eqb (pool_ref st) NotLoaded
@@ -364,7 +380,7 @@ Definition step (c : cfg) (st : state) (a : action) : option state :=
     if ref_eqb (pool_ref st) Loaded
     then Some (mkState (thr st) (destroyed st) (closed st) (nclose st) (stopped st) (cnt st) (ap_ref st) (ap_chk st)
                        Loaded (if c_pool_rechecks c then negb (stopped st) else true)
-                       (close_ready st) (ss_streaming st) (stream_done st))
+                       (close_ready st) (ss_streaming st) (stream_done st) (pend st))
     else None
   | APoolOffload =>
     if stopped st && ref_eqb (pool_ref st) Loaded then Some (offload (set_pool st Gone)) else None
@@ -381,23 +397,41 @@ Definition step (c : cfg) (st : state) (a : action) : option state :=
       let cnt' := cnt st - dec in
       Some (mkState (map clear_busy (thr st)) (destroyed st) (closed st) (nclose st) (stopped st) cnt'
                     (ap_ref st) (ap_chk st) Gone false
-                    (close_ready st || ((0 <? dec) && (cnt' =? 0))) (ss_streaming st) (stream_done st))
+                    (close_ready st || ((0 <? dec) && (cnt' =? 0))) (ss_streaming st) (stream_done st) (pend st))
+    else None
+  | ADispatch j =>
+    (* the apply worker, inside an iteration that saw the node not stopped, takes a snapshot task
+       from the queue (node.handleSnapshotTask): the request is handed to the pool; a stream task is
+       refused while node.ss.streaming() (canStream; GENERATED fact) and otherwise sets that flag *)
+    if ap_chk st && is_idle (getT st 0) && job_allowed c j
+       && (match j with JStream => negb (c_stream_checks_flag c && ss_streaming st) | _ => true end)
+    then Some (mkState (thr st) (destroyed st) (closed st) (nclose st) (stopped st) (cnt st) (ap_ref st) (ap_chk st)
+                       (pool_ref st) (pool_chk st) (close_ready st)
+                       (match j with JStream => true | _ => ss_streaming st end) (stream_done st)
+                       (fun k => jk_eqb k j || pend st k))
+    else None
+  | ADiscard j =>
+    (* workerPool.scheduleWorker: a pending job whose shard is no longer in the pool's node map is dropped *)
+    if pend st j && c_sched_checks_loaded c && negb (ref_eqb (pool_ref st) Loaded)
+    then Some (mkState (thr st) (destroyed st) (closed st) (nclose st) (stopped st) (cnt st) (ap_ref st) (ap_chk st)
+                       (pool_ref st) (pool_chk st) (close_ready st) (ss_streaming st) (stream_done st)
+                       (fun k => negb (jk_eqb k j) && pend st k))
     else None
   | ASchedule w j =>
+    (* a pending job gets a free worker. With the check of scheduleWorker (GENERATED fact) only when
+       the pool's freshly reloaded map still has the node ([pool_chk]); without it, always *)
     let t := getT st w in
     match role_of c w with
     | RSnap =>
-      if pool_chk st && (w <? List.length (thr st)) && is_idle t
+      if pend st j && (pool_chk st || negb (c_sched_checks_loaded c))
+         && (w <? List.length (thr st)) && is_idle t
          && (match t_busy t with None => true | _ => false end)
-         && job_allowed c j && pool_admits j (thr st)
-         && (match j with JStream => negb (ss_streaming st) | _ => true end)
+         && pool_admits j (thr st)
       then
         let st1 := load (set_thr st (upd w (mkThr (job_sites c j) P0 (Some j)) (thr st))) in
-        Some (match j with
-              | JStream => mkState (thr st1) (destroyed st1) (closed st1) (nclose st1) (stopped st1) (cnt st1)
-                                   (ap_ref st1) (ap_chk st1) (pool_ref st1) (pool_chk st1) (close_ready st1) true (stream_done st1)
-              | _ => st1
-              end)
+        Some (mkState (thr st1) (destroyed st1) (closed st1) (nclose st1) (stopped st1) (cnt st1)
+                      (ap_ref st1) (ap_chk st1) (pool_ref st1) (pool_chk st1) (close_ready st1)
+                      (ss_streaming st1) (stream_done st1) (fun k => negb (jk_eqb k j) && pend st k))
       else None
     | _ => None
     end
@@ -423,7 +457,7 @@ Definition step (c : cfg) (st : state) (a : action) : option state :=
     if close_ready st && is_idle (getT st 1)
     then
       let st1 := mkState (thr st) (destroyed st) (closed st) (nclose st) (stopped st) (cnt st) (ap_ref st) (ap_chk st)
-                         (pool_ref st) (pool_chk st) false (ss_streaming st) (stream_done st) in
+                         (pool_ref st) (pool_chk st) false (ss_streaming st) (stream_done st) (pend st) in
       if destroyed st then Some st1
       else Some (set_thr st1 (upd 1 (mkThr (close_sites c) P0 None) (thr st1)))
     else None
@@ -458,7 +492,8 @@ Definition overlap (p q : meth -> bool) (st : state) : bool :=
 Definition gen_sites : list site := sites_of_table lock_table.
 Definition gen_cfg (k : kind) (nsnap : nat) : cfg :=
   mkCfg gen_sites k nsnap engine_load_inside_foreach pool_load_inside_foreach apply_checks_stopped
-        pool_rechecks_before_schedule pool_stops_workers_before_unload.
+        pool_rechecks_before_schedule pool_stops_workers_before_unload
+        sched_checks_node_loaded can_stream_checks_streaming.
 
 (* ---- table conditions the positive theorems need (booleans, decided by computation) ---- *)
 Definition site_ok_core (s : site) : bool :=
